@@ -691,3 +691,5 @@ CHECKS["C17"]["required_classes"]["all"] += ["accepted-password-with-separator-b
 CHECKS["C09"]["jobs"].append(J("dir-identity", VTRACE, "TestC09DirIdentity", {"shards": 4, "checks": 12}, {"shards": 16, "checks": 300}))
 CHECKS["C09"]["required_classes"]["all"] += ["acknowledged-change-after-the-base-directory-was-replaced:relink"]
 CHECKS["C15"]["required_classes"]["all"] += ["traced-password-check-of-an-upgradeable-record-with-upgrades-off"]
+CHECKS["C03"]["jobs"].append(J("repointed-base", VSTORE, "TestC03RepointedBase", {"shards": 2, "checks": 120}, {"shards": 8, "checks": 5000}))
+CHECKS["C03"]["required_classes"]["all"] += ["base-directory-switch:relative-link", "base-directory-switch:directory-replaced"]
